@@ -136,6 +136,14 @@ class Sys:
 
     def dispatch(self, text, context=None):
         """-> ('raise', exc) | ('ret', value)   (value is whatever dispatch returned)"""
+        if 'log' in self.kind:
+            # '<kind>-log': the application runs with the pjrpc loggers enabled for DEBUG
+            from .clientrun import debug_logging
+            with debug_logging(True):
+                return self._dispatch(text, context)
+        return self._dispatch(text, context)
+
+    def _dispatch(self, text, context=None):
         try:
             if self.is_async:
                 import asyncio
